@@ -12,6 +12,7 @@ import (
 	"io"
 	"net"
 	"os"
+	"runtime"
 	"strconv"
 	"strings"
 	"sync"
@@ -42,6 +43,16 @@ type StreamConfig struct {
 	// least one, never more than the maximum packet size) - and every datagram is framed on its own. Hostile lists
 	// datagrams that no decoder accepts, slipped in between (C04: they must change nothing but counters)
 	Hostile []HostileDgram `json:"hostile,omitempty"`
+	// Tail (std, C04): after the blocks the peer sends a header whose length no packet can have
+	// (len24: 16 MiB, len31: 2 GiB - 1, len36: 64 GiB, len63: 2^63) and then goes silent
+	Tail string `json:"tail,omitempty"`
+}
+
+var hostileTails = map[string][]byte{
+	"len24": {6, 0xfe, 0x01, 0, 0, 0},
+	"len31": {6, 0xfe, 0x7f, 0xff, 0xff, 0xff},
+	"len36": {6, 0xff, 0, 0, 0, 0x10, 0, 0, 0, 0},
+	"len63": {6, 0xff, 0x80, 0, 0, 0, 0, 0, 0, 0},
 }
 
 // HostileDgram is one undecodable datagram, put on the wire before good datagram number At (or after the last one).
@@ -258,6 +269,11 @@ func (StreamEngine) Generate(prop string, r *kit.Rand, tier string) *kit.Scenari
 		if r.Chance(0.04) {
 			c.Target = "udp"
 		}
+		if r.Chance(0.12) {
+			// ... and the application-side stream framing under a header that announces an impossible length
+			c.Target = "std"
+			c.Tail = kit.Pick(r, []string{"len24", "len31", "len36", "len63"})
+		}
 	}
 	if t := os.Getenv("VERIF_STREAM_TARGET"); t != "" {
 		c.Target = t // experiments only
@@ -270,6 +286,9 @@ func (StreamEngine) Generate(prop string, r *kit.Rand, tier string) *kit.Scenari
 	}
 	if c.Target != "fw" && total > 300000 {
 		total = 300000
+	}
+	if c.Tail != "" {
+		total = kit.Pick(r, []int{0, 2000, 60000})
 	}
 	if c.Target == "std" && r.Chance(0.4) {
 		// a slow sender: silences in the middle of the stream, wherever the writes happen to end
@@ -354,6 +373,9 @@ func (StreamEngine) Generate(prop string, r *kit.Rand, tier string) *kit.Scenari
 	if r.Chance(0.3) || (c.Target == "tcpout" && r.Chance(0.8)) {
 		c.EofAt = r.Range(0, sum)
 	}
+	if c.Tail != "" {
+		c.EofAt = -1 // the tail follows the last complete block
+	}
 	if c.Target == "fw" && c.EofAt < 0 && r.Chance(0.15) {
 		c.EofWithData = true
 	}
@@ -393,6 +415,9 @@ func (StreamEngine) Simplify(sc *kit.Scenario[StreamConfig, Block]) []*kit.Scena
 	}
 	if sc.Config.EofAt >= 0 {
 		modC(func(c *StreamConfig) { c.EofAt = -1 })
+	}
+	if sc.Config.Tail != "" && sc.Config.Tail != "len24" {
+		modC(func(c *StreamConfig) { c.Tail = "len24" })
 	}
 	if sc.Config.EofWithData {
 		modC(func(c *StreamConfig) { c.EofWithData = false })
@@ -543,7 +568,7 @@ func (e StreamEngine) Run(t *testing.T, ctx *kit.Ctx, sc *kit.Scenario[StreamCon
 		}
 	}
 	cut := len(stream)
-	if sc.Config.EofAt >= 0 && sc.Config.EofAt < cut {
+	if sc.Config.EofAt >= 0 && sc.Config.EofAt < cut && sc.Config.Tail == "" {
 		cut = sc.Config.EofAt
 		ctx.Fault("eof-mid-stream")
 	}
@@ -807,6 +832,15 @@ func (e StreamEngine) Run(t *testing.T, ctx *kit.Ctx, sc *kit.Scenario[StreamCon
 		wire.close()
 	case "std":
 		var deadlock any
+		var runPanic any
+		var runStack string
+		var ms0, ms1 runtime.MemStats
+		if tail := hostileTails[sc.Config.Tail]; tail != nil {
+			data = append(append([]byte(nil), data...), tail...)
+			pfx = "C04"
+			ctx.Fault("impossible-length-in-stream/" + sc.Config.Tail)
+		}
+		runtime.ReadMemStats(&ms0)
 		func() {
 			defer func() { deadlock = recover() }()
 			synctest.Test(t, func(t *testing.T) {
@@ -817,7 +851,15 @@ func (e StreamEngine) Run(t *testing.T, ctx *kit.Ctx, sc *kit.Scenario[StreamCon
 					got = append(got, r.Range(0, r.Length()).Join())
 					return nil
 				}, func(err error) error { runErr = err; return err })
-				go func() { f.Run(); close(done) }()
+				go func() {
+					defer close(done)
+					defer func() {
+						if p := recover(); p != nil {
+							runPanic, runStack = p, kit.PanicSite()
+						}
+					}()
+					f.Run()
+				}()
 				pauseAt := map[int]bool{}
 				for _, k := range sc.Config.PauseAt {
 					pauseAt[k] = true
@@ -846,8 +888,18 @@ func (e StreamEngine) Run(t *testing.T, ctx *kit.Ctx, sc *kit.Scenario[StreamCon
 				<-done
 			})
 		}()
+		runtime.ReadMemStats(&ms1)
+		if runPanic != nil {
+			return fail(pfx+"/panic", runStack, "StreamFace.Run panicked: %v", runPanic)
+		}
+		if grew := ms1.TotalAlloc - ms0.TotalAlloc; sc.Config.Tail != "" && grew > uint64(64<<20+64*len(data)) {
+			return fail("C04/allocation-out-of-proportion", "stream-face", "a %d-byte stream made StreamFace.Run allocate %d bytes", len(data), grew)
+		}
 		if deadlock != nil {
 			return fail("C11/stream-face-hangs", "std", "StreamFace.Run did not finish: %v", deadlock)
+		}
+		if sc.Config.Tail != "" {
+			runErr = nil // how the face ends after the impossible header is its business; the blocks before it are owed
 		}
 		if errors.Is(runErr, io.EOF) || errors.Is(runErr, io.ErrUnexpectedEOF) || errors.Is(runErr, io.ErrClosedPipe) {
 			runErr = nil
